@@ -44,8 +44,10 @@ class VClock:
     poll mode (default): every call of monotonic() advances time by 1. The engine reads the clock
       once per 1000 interpreter steps and once per 100 regex steps, so time_limit=N stops a
       diverging script after about N polls whatever the host speed, at zero per-step cost.
-    step mode: time advances by 1 per interpreter step / regex step through the verification
-      hooks (used by C01 to place the deadline at an exact step and to count the overrun).
+    step mode: time only advances when the harness advances `now` (C01 does so by 1 per interpreter
+      step / regex step through the verification hooks, to place the deadline at an exact step and to
+      count the overrun).
+    real mode: the host clock (only for C01's deliberately loose real-time smoke subset).
     """
 
     def __init__(self):
@@ -62,6 +64,8 @@ class VClock:
         self.polls += 1
         if self.mode == "poll":
             self.now += 1.0
+        elif self.mode == "real":
+            return _real_time.monotonic()
         return self.now
 
     def time(self):
